@@ -2,6 +2,7 @@ package interp
 
 import (
 	"fmt"
+	"go/token"
 	"go/types"
 	"strconv"
 	"strings"
@@ -228,20 +229,35 @@ func init() {
 			nx, ny := e.ConcInt(x.Len), e.ConcInt(y.Len)
 			return sym.Bool(e.o(x) < e.o(y)+ny && e.o(y) < e.o(x)+nx)
 		},
+		"vAllocLimits": func(e *Exec, c *frame, fn *ssa.Function, a []Value) Value {
+			// arm the allocation-size obligations (C04): from now on every
+			// make([]byte, n) must satisfy n <= a[0] and every other make an
+			// element count <= a[1], for all inputs (one query per site).
+			byteLimit, countLimit := a[0].(sym.Sc), a[1].(sym.Sc)
+			e.allocHook = func(instr *ssa.MakeSlice, elem types.Type, n sym.Sc) {
+				if e.replaying() {
+					return
+				}
+				p := e.M.Prog.Fset.Position(instr.Pos())
+				label := fmt.Sprintf("alloc-bounded@%s:%d", shortFile(p.Filename), p.Line)
+				lim := countLimit
+				if b, ok := under(elem).(*types.Basic); ok && b.Kind() == types.Uint8 {
+					lim = byteLimit
+				}
+				e.Assert(label, e.norm(sym.Sle(n, lim)), "", sym.Bool(false))
+			}
+			return nil
+		},
 		"vAllocLimit": func(e *Exec, c *frame, fn *ssa.Function, a []Value) Value {
-			// arm the allocation-size obligation (C04): every make executed from
-			// now on must satisfy bytes <= limit (a[0]) for all inputs.
 			limit := a[0].(sym.Sc)
 			e.allocHook = func(instr *ssa.MakeSlice, elem types.Type, n sym.Sc) {
 				if e.replaying() {
 					return
 				}
 				sz := e.M.sizeof(elem)
-				bytes := sym.Mul(n, i64(sz))
 				p := e.M.Prog.Fset.Position(instr.Pos())
 				label := fmt.Sprintf("alloc-bounded@%s:%d", shortFile(p.Filename), p.Line)
-				ok := sym.And(sym.Sle(bytes, limit), sym.Sle(n, i64(1<<40)))
-				e.Assert(label, e.norm(ok), "", sym.Bool(false))
+				e.Assert(label, e.norm(sym.Sle(sym.Mul(n, i64(sz)), limit)), "", sym.Bool(false))
 			}
 			return nil
 		},
@@ -554,6 +570,10 @@ func modelAtoi(e *Exec, c *frame, fn *ssa.Function, a []Value) Value {
 	if i == n {
 		return Tuple{i64zero, synErr}
 	}
+	// leading zeros do not count towards the magnitude
+	for i < n-1 && e.Branch(sym.Eq(s.St.peek(e.o(s)+i).(sym.Sc), sym.Const(8, '0'))) {
+		i++
+	}
 	if n-i > 18 {
 		// all digits? then saturate
 		for j := i; j < n; j++ {
@@ -569,7 +589,20 @@ func modelAtoi(e *Exec, c *frame, fn *ssa.Function, a []Value) Value {
 			}
 			return Tuple{v, e.newErrorString("strconv.Atoi: parsing: value out of range")}
 		}
-		e.unsupported("strconv.Atoi on exactly 19 digits")
+		// exactly 19 digits: overflow iff the digit string is above MaxInt64
+		// (MinInt64 when negative); equal lengths make this a lexicographic test
+		limit := "9223372036854775807"
+		if neg {
+			limit = "9223372036854775808"
+		}
+		digits := Slice{St: s.St, Off: i64(e.o(s) + i), Len: i64(19), Cap: i64(19)}
+		if e.Branch(e.stringLess(token.GTR, digits, litString(limit))) {
+			v := sym.Const(64, uint64(1<<63-1))
+			if neg {
+				v = sym.Const(64, uint64(1<<63))
+			}
+			return Tuple{v, e.newErrorString("strconv.Atoi: parsing: value out of range")}
+		}
 	}
 	acc := i64zero
 	for j := i; j < n; j++ {
